@@ -238,6 +238,8 @@ OneLine(ev, args, tbl, aux, obs) ==
          IF li.df = 11 THEN "df11" ELSE "df17")
   /\ Mark("C04", squit /\ ~ParityOK(f), ev)
   /\ Chk("C16", "filter", (li.isf /\ ~PassesFilter(li.df, args.f)) => ev.ch = <<>>, ev, "filter")
+  \* ... and nothing but -f filters: a frame of a listed format (or any, without -f) is applied whatever the other options say
+  /\ Chk("C16", "filter.passes", (app /\ ev.ok) => a \in k1, ev, "listed.dropped")
   /\ Mark("C16", li.isf /\ a # 0 /\ args.f # <<>>, ev)
   /\ Chk("C12", "present", app => a \in k1, ev, "present")
   \* C17 on the reader path: the row of an applied frame shows the country of its address (certain blocks only)
@@ -535,6 +537,13 @@ CliStreamStep(ev) ==
   IN  /\ Chk("C11", "cli.exit", ev.code = 0, ev, "exit")
       /\ Chk("DRIFT", "refresh.per.frame", (ev.code = 0 /\ nine) => Len(ev.snaps) = m, ev, "stream")
       /\ (IF usable THEN \A k \in 1..m : StepOK(k) ELSE TRUE)
+      \* whatever the number of refreshes: the last one shows the aircraft and the counts of ALL frames that reached the decoder
+      /\ (IF ev.code = 0 /\ nine /\ m > 0 /\ ev.args.d >= 60
+          THEN LET sl == IF ev.snaps = <<>> THEN Empty ELSE ev.snaps[Len(ev.snaps)]
+                   cl == IF sl.counts = <<>> THEN <<>> ELSE ParseCounts(sl.counts[1])
+               IN  /\ Chk("C16", "cli.stream.final.table", SnapAddrs(sl) = {lis[idx[j]].a : j \in 1..m}, ev, "final")
+                   /\ Chk("C16", "cli.stream.final.counters", ev.args.c => cl = ExpectedCounts([j \in 1..m |-> lis[idx[j]].df]), ev, "final")
+          ELSE TRUE)
       /\ Mark("C11", usable /\ m > 0, ev)
       /\ Mark("C16", usable /\ m > 0 /\ ev.args.f # <<>>, ev)
 
